@@ -38,6 +38,11 @@ Judge(e) ==
              bad == {p \in some : p[2] \notin KeyBitsAdmissible(p[1])}
                     \cup {<<v, -1>> : v \in {v \in Values("NamedGroup") \cup (0..64) : -1 \notin KeyBitsAdmissible(v) /\ ~\E p \in some : p[1] = v}} IN
          IF bad = {} THEN TRUE ELSE Emit([what |-> "keybits", bad |-> bad])
+    (* a constant found outside the tables under a registry name carries that name's value (spelling variants are matched by the orchestrator *)
+    (* against the table judged here)                                                                                                         *)
+    [] e.kind = "alias" ->
+         IF e.type \in TypeSet /\ e.name \in Names(e.type) /\ ValueOf(e.type, e.name) # e.value
+         THEN Emit([what |-> "const", type |-> e.type, name |-> e.name, observed |-> e.value, expected |-> ValueOf(e.type, e.name)]) ELSE TRUE
     [] OTHER -> TRUE
 
 Next ==
